@@ -21,6 +21,7 @@ import (
 	"os"
 	"sync"
 	"time"
+	"unsafe"
 )
 
 // Observer receives the reports.  Event is called with the object's mutex held and
@@ -182,6 +183,7 @@ func (l *Listener) Close() error {
 	l.mu.Lock()
 	defer l.mu.Unlock()
 	if l.closed {
+		l.obs.Event("lsn.close", l, "again", 0)
 		return ErrClosed
 	}
 	l.closed = true
@@ -344,7 +346,8 @@ func (c *Conn) Close() error {
 func (c *Conn) SetReadDeadline(t time.Time) error {
 	c.mu.Lock()
 	defer c.mu.Unlock()
-	if c.closed {
+	if c.closed { // reported all the same: the caller did move the deadline as far as it knows
+		c.obs.Event("conn.setdl", c, classify(t), 1)
 		return ErrClosed
 	}
 	c.rd.set(t, c.cond)
@@ -398,14 +401,14 @@ type PacketConn struct {
 	rd     deadline
 	sent   int
 	// BufOf maps the identity of the buffer a packet was read into to the packet id.
-	bufOf map[*byte]int
+	bufOf map[uintptr]int
 }
 
 func NewPacketConn(id int, obs Observer) *PacketConn {
 	if obs == nil {
 		obs = nopObserver{}
 	}
-	p := &PacketConn{ID: id, obs: obs, bufOf: map[*byte]int{}}
+	p := &PacketConn{ID: id, obs: obs, bufOf: map[uintptr]int{}}
 	p.cond = sync.NewCond(&p.mu)
 	return p
 }
@@ -460,16 +463,16 @@ func (p *PacketConn) ReadFrom(b []byte) (int, net.Addr, error) {
 		p.inbox = p.inbox[1:]
 		n := copy(b, pk.data)
 		if cap(b) > 0 {
-			p.bufOf[&b[:1][0]] = pk.id
+			p.bufOf[uintptr(unsafe.Pointer(unsafe.SliceData(b)))] = pk.id
 		}
 		p.obs.Event("pc.read", p, "ok", pk.id)
 		return n, Addr("fake-client"), nil
 	}
 }
 
-// PacketOfBuf returns the id of the packet last read into the buffer whose first
-// element is at ptr (0 if none).
-func (p *PacketConn) PacketOfBuf(ptr *byte) int {
+// PacketOfBuf returns the id of the packet last read into the buffer whose backing
+// array starts at ptr (dns.VerifBufID), 0 if none.
+func (p *PacketConn) PacketOfBuf(ptr uintptr) int {
 	p.mu.Lock()
 	defer p.mu.Unlock()
 	return p.bufOf[ptr]
@@ -491,6 +494,7 @@ func (p *PacketConn) Close() error {
 	p.mu.Lock()
 	defer p.mu.Unlock()
 	if p.closed {
+		p.obs.Event("pc.close", p, "again", 0)
 		return ErrClosed
 	}
 	p.closed = true
@@ -504,6 +508,7 @@ func (p *PacketConn) SetReadDeadline(t time.Time) error {
 	p.mu.Lock()
 	defer p.mu.Unlock()
 	if p.closed {
+		p.obs.Event("pc.setdl", p, classify(t), 1)
 		return ErrClosed
 	}
 	p.rd.set(t, p.cond)
